@@ -6,7 +6,7 @@ package main
 // Mesh.OctTree[Depth]) and run the five queries.  Every answer is
 //   * compared with an exhaustive scan done here through the same trees.Element
 //     interfaces (oracle lines c16.holds.*: the driver compares the two answers), and
-//   * for points, segments (line strips) and boxes, recomputed by the Lean model
+//   * for points, segments (line strips), boxes and triangles, recomputed by the Lean model
 //     (Model/Tree.lean run at Float on the same bit patterns): ids in visit order.
 // Rendering: BVHNode.Hit and rendering.Mesh.Hit (octree traverse) vs HitList.Hit.
 
@@ -200,10 +200,14 @@ func (c *Ctx) c16elements() c16set {
 				}
 				return trees.NewOctreeWithDepth(elems, d)
 			}}
-	default: // triangle soup over shared vertices (geometry not modelled in Lean: scan oracle only)
-		m, tv, _ := c.c16triMesh(n)
+	default: // triangle soup, some triangles repeated
+		m, tv, ti := c.c16triMesh(n)
 		c.Note("set.tri")
-		return c16set{kind: "tri", elems: c16scope(m), verts: tv, mesh: &m,
+		parts := make([]string, n)
+		for i := 0; i < n; i++ {
+			parts[i] = c16v(tv[ti[3*i]]) + " " + c16v(tv[ti[3*i+1]]) + " " + c16v(tv[ti[3*i+2]])
+		}
+		return c16set{kind: "tri", elems: c16scope(m), enc: fmt.Sprintf("tri %d %s", n, strings.Join(parts, " ")), verts: tv, mesh: &m,
 			build: func(d int) *trees.OctTree {
 				if d < 0 {
 					return m.OctTree()
